@@ -114,6 +114,29 @@ def rule_ab(ctx: Context, R: Reporter, fin: FuncInfo, run: FuncInfo, wfn: FuncIn
             if k not in seen:
                 seen[k] = (not problems, "; ".join(problems), ev, bs)
     R.floor("C05.a", "finalising calls reached on enumerated paths", n_calls, 4)
+    # every way out of the reweighting step records the iteration: no return that by-passes the finalising call
+    rflow = flow_of(run.node)
+    rcfg = rflow.cfg
+    fin_nodes = [nd.id for nd in rcfg.stmt_nodes() for c in calls_in_node(nd) if fin in [t for t in ctx.res.call_targets(run, c) if isinstance(t, FuncInfo)]]
+    # ... or an inline recording of all three keys (the first-iteration branch)
+    by_call = {}
+    for a in ctx.state.in_func(run, include_nested=False):
+        if a.mode == "write" and a.key in ("beta", "logz", "ess"):
+            by_call.setdefault(id(a.call), (a.call, set()))[1].add(a.key)
+    for (c, keys) in by_call.values():
+        if keys == {"beta", "logz", "ess"}:
+            n0 = rflow.node_containing(c)
+            if n0 is not None:
+                fin_nodes.append(n0.id)
+    for nd in rcfg.stmt_nodes():
+        if nd.kind == "stmt" and isinstance(nd.stmt, ast.Return):
+            if nd.id in fin_nodes:
+                ok = True
+            else:
+                ok = not rcfg.reaches(rcfg.entry.id, nd.id, blocked=fin_nodes)
+            R.check("C05.a", "every return of the reweighting step has recorded beta / logZ / ESS through the finalising function", ok, run, nd.stmt,
+                    msg=f"{run.short}: `{unparse(nd.stmt)[:60]}` can be reached without calling {fin.short}: on that path (e.g. an iteration that does not advance) the recorded "
+                        f"temperature, evidence and ESS are left over from the previous iteration while new weights are handed on", key=f"return-finalised:{norm_text(nd.stmt)[:40]}")
     by_node: Dict[int, List] = {}
     for (k, (ok, msg, ev, bs)) in seen.items():
         by_node.setdefault(ev.node.id, []).append((ok, msg, ev, bs))
